@@ -251,17 +251,10 @@ func cmdCheck(args []string) {
 			}
 		}
 	}
-	// keep only obligations relevant to this property
-	for _, fr := range frs {
-		var keep []*Obligation
-		for _, o := range fr.Obls {
-			if onlyOtherProps(o.Tags, *prop) {
-				continue
-			}
-			keep = append(keep, o)
-		}
-		fr.Obls = keep
-	}
+	// Every obligation of the examined functions is discharged, whatever property its clause is
+	// tagged with: an obligation is assumed by everything generated after it in the same function,
+	// so a clause of another property that no longer holds would otherwise be relied upon silently.
+	// (Tags select which functions a property's check examines, not which of their obligations count.)
 	work := filepath.Join(outDir, ".work", *prop)
 	os.RemoveAll(work)
 	solveAll(work, frs, timeout, runtime.NumCPU())
